@@ -178,6 +178,7 @@ namespace plan
     int ofield_class = -1;            // own object field "g" of that class (or -1)
     bool ofield_twice = false;        // a second own object field "h" of the same class
     bool is_sv = false;
+    bool is_agent = false;  // with is_sv: `class A : Agent` - a timeline type without mutual exclusion, predicates are Interval or Impulse as declared
     std::vector<int> preds; // predicates declared inside (state variables)
   };
   struct InstD
